@@ -310,6 +310,9 @@ func genMut(t *rapid.T, e *extInfo, depth int) Mut {
 	case "eol":
 		m.A = ubits(t, "a", 16)
 		m.B = upick(t, "b", len(lineEnds))
+	case "linepre":
+		m.A = ubits(t, "a", 16)
+		m.B = upick(t, "b", len(linePrefixes))
 	case "subdel":
 		m.A = ubits(t, "a", 12)
 		m.B = ubits(t, "b", 6)
